@@ -59,9 +59,9 @@ pub fn undeclared_are(db: &FixtureDatabase, p: &str, want: &[EU]) -> bool {
 }
 
 macro_rules! rec_arm {
-    ($id:ident, $body:expr) => {
+    ($id:ident, $oracle:ident, $body:expr) => {
         #[cfg_attr(kani, kani::proof)]
-        #[cfg_attr(kani, kani::stub(rustpython_parser::parse, crate::oracle::oracle_parse))]
+        #[cfg_attr(kani, kani::stub(rustpython_parser::parse, crate::oracle::$oracle))]
         #[cfg_attr(kani, kani::stub(std::path::Path::canonicalize, crate::stubs::canonicalize_err))]
         #[cfg_attr(kani, kani::stub(std::path::Path::exists, crate::stubs::path_exists_false))]
         #[cfg_attr(kani, kani::stub(std::hash::RandomState::new, crate::stubs::fixed_random_state))]
@@ -73,11 +73,11 @@ macro_rules! rec_arm {
 }
 const M: FixtureScope = FixtureScope::Module;
 
-/// @harness id=c03_spellings props=C03 unwind=40 mem=14 cap=2400 gates=oracle
+/// @harness id=c03_spellings props=C03 unwind=40 mem=14 cap=2400 unwindset=find_inner:3;memchr_seq:400;rec~ParseErrorType:3;rec~LexicalErrorType:3;rec~FStringErrorType:3;rec~drop_glue::<std::io::Error:3 gates=oracle
 /// D_SPELLINGS: pytest.fixture bare / called, `fixture`, `fixture(scope=, autouse=)`, pytest_asyncio.fixture on an
 /// async def, name= alias with `request`: six definitions with name, scope, autouse, ordered dependencies; the
 /// parameter usages and nothing else.
-rec_arm!(c03_spellings, {
+rec_arm!(c03_spellings, oracle_only_d_spellings, {
     let db = FixtureDatabase::new();
     db.analyze_file(PathBuf::from(PC), T_D_SPELLINGS);
     let want = [ed("a", 4), ED { deps: &["a"], ..ed("b", 6) }, ed("c", 8), ED { scope: M, autouse: true, ..ed("d", 10) },
@@ -87,10 +87,10 @@ rec_arm!(c03_spellings, {
     reach!("c03.spellings.end");
     std::mem::forget(db);
 });
-/// @harness id=c03_not_fixtures props=C03 unwind=40 mem=14 cap=2400 gates=oracle
+/// @harness id=c03_not_fixtures props=C03 unwind=40 mem=14 cap=2400 unwindset=find_inner:3;memchr_seq:400;rec~ParseErrorType:3;rec~LexicalErrorType:3;rec~FStringErrorType:3;rec~drop_glue::<std::io::Error:3 gates=oracle
 /// D_NOT_FIXTURES: helper, plain class method, a decorated function nested in a function, string and comment
 /// contents: no definition at all; the only usage is the test parameter.
-rec_arm!(c03_not_fixtures, {
+rec_arm!(c03_not_fixtures, oracle_only_d_not_fixtures, {
     let db = FixtureDatabase::new();
     db.analyze_file(PathBuf::from(PU), T_D_NOT_FIXTURES);
     check!("c03.not_fixtures.definitions", defs_are(&db, PU, &[]));
@@ -98,9 +98,9 @@ rec_arm!(c03_not_fixtures, {
     reach!("c03.not_fixtures.end");
     std::mem::forget(db);
 });
-/// @harness id=c03_class props=C03,C15 unwind=40 mem=14 cap=2400 gates=oracle
+/// @harness id=c03_class props=C03,C15 unwind=40 mem=14 cap=2400 unwindset=find_inner:3;memchr_seq:400;rec~ParseErrorType:3;rec~LexicalErrorType:3;rec~FStringErrorType:3;rec~drop_glue::<std::io::Error:3 gates=oracle
 /// D_CLASS: class-nested fixture and test method (self is no request), usefixtures on a class.
-rec_arm!(c03_class, {
+rec_arm!(c03_class, oracle_only_d_class, {
     let db = FixtureDatabase::new();
     db.analyze_file(PathBuf::from(PU), T_D_CLASS);
     check!("c03.class.definitions", defs_are(&db, PU, &[ed("k", 4)]));
@@ -108,10 +108,10 @@ rec_arm!(c03_class, {
     reach!("c03.class.end");
     std::mem::forget(db);
 });
-/// @harness id=c03_yield props=C03 unwind=40 mem=14 cap=2400 gates=oracle
+/// @harness id=c03_yield props=C03 unwind=40 mem=14 cap=2400 unwindset=find_inner:3;memchr_seq:400;rec~ParseErrorType:3;rec~LexicalErrorType:3;rec~FStringErrorType:3;rec~drop_glue::<std::io::Error:3 gates=oracle
 /// D_YIELD: a nested yield textually before a top-level yield (yield line = the first in source order), a plain
 /// `-> int` fixture, a `Generator[int, None, None]` generator with the yield inside `with` (return type = int).
-rec_arm!(c03_yield, {
+rec_arm!(c03_yield, oracle_only_d_yield, {
     let db = FixtureDatabase::new();
     db.analyze_file(PathBuf::from(PC), T_D_YIELD);
     let want = [ED { yield_line: Some(5), ..ed("y1", 3) }, ED { ret: Some("int"), ..ed("y2", 9) }, ED { yield_line: Some(14), ret: Some("int"), ..ed("y3", 12) }];
@@ -119,10 +119,10 @@ rec_arm!(c03_yield, {
     reach!("c03.yield.end");
     std::mem::forget(db);
 });
-/// @harness id=c03_doc props=C03 unwind=40 mem=14 cap=2400 gates=oracle
+/// @harness id=c03_doc props=C03 unwind=40 mem=14 cap=2400 unwindset=find_inner:3;memchr_seq:400;rec~ParseErrorType:3;rec~LexicalErrorType:3;rec~FStringErrorType:3;rec~drop_glue::<std::io::Error:3 gates=oracle
 /// D_DOC: multi-line docstring with an interior whitespace-only line shorter than the body indentation: cleaned
 /// docstring as inspect.cleandoc gives it.
-rec_arm!(c03_doc, {
+rec_arm!(c03_doc, oracle_only_d_doc, {
     let db = FixtureDatabase::new();
     db.analyze_file(PathBuf::from(PC), T_D_DOC);
     let want = [ED { doc: Some("First line.\n\nBody line one.\n\nBody line two."), ..ed("doc", 3) }];
@@ -130,9 +130,9 @@ rec_arm!(c03_doc, {
     reach!("c03.doc.end");
     std::mem::forget(db);
 });
-/// @harness id=c03_assign_marks props=C03,C15 unwind=50 mem=14 cap=2400 gates=oracle
+/// @harness id=c03_assign_marks props=C03,C15 unwind=50 mem=14 cap=2400 unwindset=find_inner:3;memchr_seq:400;rec~ParseErrorType:3;rec~LexicalErrorType:3;rec~FStringErrorType:3;rec~drop_glue::<std::io::Error:3 gates=oracle
 /// D_ASSIGN: assignment-style fixture `h = pytest.fixture()(_impl)`, pytestmark list, indirect parametrize, test parameter.
-rec_arm!(c03_assign_marks, {
+rec_arm!(c03_assign_marks, oracle_only_d_assign, {
     let db = FixtureDatabase::new();
     db.analyze_file(PathBuf::from(PU), T_D_ASSIGN);
     check!("c03.assign.definitions", defs_are(&db, PU, &[ed("h", 3)]));
@@ -140,10 +140,10 @@ rec_arm!(c03_assign_marks, {
     reach!("c03.assign.end");
     std::mem::forget(db);
 });
-/// @harness id=c03_annotations props=C03 unwind=40 mem=14 cap=2400 gates=oracle
+/// @harness id=c03_annotations props=C03 unwind=40 mem=14 cap=2400 unwindset=find_inner:3;memchr_seq:400;rec~ParseErrorType:3;rec~LexicalErrorType:3;rec~FStringErrorType:3;rec~drop_glue::<std::io::Error:3 gates=oracle
 /// D_ANNOT: return annotations — subscript, attribute | None union, string forward reference; a defaulted
 /// parameter (`x: int = 3`, NOT a fixture request in pytest) and a keyword-only one (`y`, a request).
-rec_arm!(c03_annotations, {
+rec_arm!(c03_annotations, oracle_only_d_annot, {
     let db = FixtureDatabase::new();
     db.analyze_file(PathBuf::from(PC), T_D_ANNOT);
     let r12 = [ED { ret: Some("dict[str, int]"), ..ed("r1", 3) }, ED { ret: Some("a.B | None"), ..ed("r2", 5) }];
@@ -164,9 +164,9 @@ rec_arm!(c03_annotations, {
     reach!("c03.annot.end");
     std::mem::forget(got); std::mem::forget(db);
 });
-/// @harness id=c03_async_gen props=C03 unwind=40 mem=14 cap=2400 gates=oracle
+/// @harness id=c03_async_gen props=C03 unwind=40 mem=14 cap=2400 unwindset=find_inner:3;memchr_seq:400;rec~ParseErrorType:3;rec~LexicalErrorType:3;rec~FStringErrorType:3;rec~drop_glue::<std::io::Error:3 gates=oracle
 /// D_ASYNC_GEN: async generator fixture, yield inside `async with`: generator status and yielded type.
-rec_arm!(c03_async_gen, {
+rec_arm!(c03_async_gen, oracle_only_d_async_gen, {
     let db = FixtureDatabase::new();
     db.analyze_file(PathBuf::from(PC), T_D_ASYNC_GEN);
     let got = defs_of(&db, PC);
@@ -183,10 +183,10 @@ rec_arm!(c03_async_gen, {
 });
 
 // ------------------------------------------------------------------------------------------------ C15
-/// @harness id=c15_utf16_columns props=C15 unwind=60 mem=14 cap=2400 gates=oracle
+/// @harness id=c15_utf16_columns props=C15 unwind=60 mem=14 cap=2400 unwindset=find_inner:3;memchr_seq:400;rec~ParseErrorType:3;rec~LexicalErrorType:3;rec~FStringErrorType:3;rec~drop_glue::<std::io::Error:3 gates=oracle
 /// D_POS_UTF16: a usefixtures name after a 2-byte (U+00E9) and after a 4-byte (U+1F600) character on the same
 /// line: the recorded span must be the string content in UTF-16 columns (31..33 and 32..34).
-rec_arm!(c15_utf16_columns, {
+rec_arm!(c15_utf16_columns, oracle_only_d_pos_utf16, {
     let db = FixtureDatabase::new();
     db.analyze_file(PathBuf::from(PU), T_D_POS_UTF16);
     let got: Vec<FixtureUsage> = db.usages.get(&PathBuf::from(PU)).map(|u| u.value().clone()).unwrap_or_default();
@@ -205,9 +205,9 @@ rec_arm!(c15_utf16_columns, {
     reach!("c15.utf16.end");
     std::mem::forget(got); std::mem::forget(db);
 });
-/// @harness id=c15_string_literal_forms props=C15 unwind=60 mem=14 cap=2400 gates=oracle
+/// @harness id=c15_string_literal_forms props=C15 unwind=60 mem=14 cap=2400 unwindset=find_inner:3;memchr_seq:400;rec~ParseErrorType:3;rec~LexicalErrorType:3;rec~FStringErrorType:3;rec~drop_glue::<std::io::Error:3 gates=oracle
 /// D_POS_LITERALS: usefixtures(r"fa", '''fb''', "fc"): each recorded span must cover exactly the string content.
-rec_arm!(c15_string_literal_forms, {
+rec_arm!(c15_string_literal_forms, oracle_only_d_pos_literals, {
     let db = FixtureDatabase::new();
     db.analyze_file(PathBuf::from(PU), T_D_POS_LITERALS);
     let got: Vec<FixtureUsage> = db.usages.get(&PathBuf::from(PU)).map(|u| u.value().clone()).unwrap_or_default();
@@ -227,15 +227,19 @@ rec_arm!(c15_string_literal_forms, {
 });
 
 // ------------------------------------------------------------------------------------------------ C17
-/// @harness id=c17_undeclared_scan props=C17 unwind=40 mem=16 cap=3600 gates=oracle
+/// @harness id=c17_undeclared_scan props=C17 unwind=40 mem=16 cap=2400 unwindset=find_inner:3;memchr_seq:400;rec~ParseErrorType:3;rec~LexicalErrorType:3;rec~FStringErrorType:3;rec~drop_glue::<std::io::Error:3 gates=oracle,seed
 /// The sibling conftest (fs, fb — registered FIRST) and the /a conftest (fa, fb, fm, fl) are analysed, then
 /// D_U_TEST: `fb` used as call target, argument, attribute base, operand, subscript value and list element is
 /// flagged at exactly its position, six times; the parameter fa, the invisible fs, the unknown zz, the
 /// module-level fm and the local fl (bound on the line before its use) are not.
-rec_arm!(c17_undeclared_scan, {
+rec_arm!(c17_undeclared_scan, oracle_only_d_u_test, {
     let db = FixtureDatabase::new();
-    db.analyze_file(PathBuf::from(PS), T_D_U_SIB);
-    db.analyze_file(PathBuf::from(PC), T_D_U_CONF);
+    // the two conftests are put into the index from the fresh-index data (gate `seed`), sibling FIRST; the test
+    // module is analysed by the real analyzer
+    let sib = fresh_d_u_sib(PS); let conf = fresh_d_u_conf(PC);
+    crate::h_hist::seed_file_state(&db, PS, T_D_U_SIB, &sib);
+    crate::h_hist::seed_file_state(&db, PC, T_D_U_CONF, &conf);
+    std::mem::forget(sib); std::mem::forget(conf);
     db.analyze_file(PathBuf::from(PU), T_D_U_TEST);
     let want = [EU("fb", 4, 4, 6), EU("fb", 5, 6, 8), EU("fb", 6, 4, 6), EU("fb", 7, 8, 10), EU("fb", 8, 4, 6), EU("fb", 9, 5, 7)];
     check!("c17.scan.findings_exact", undeclared_are(&db, PU, &want));
